@@ -20,7 +20,7 @@ def run(chk):
         exe = S.build(cfg)
     except pv.BuildError as e:
         chk.violation(str(e), "harness for C09 does not build against the current source", no_input=True, suffix="txt")
-        return chk.finish()
+        return S.finish(chk)
     fam = S.make_family(exe, S.view_c09)
     thorough = chk.tier == "thorough"
     cases = S.scripted_cases(chk, thorough, "C09")
@@ -36,4 +36,4 @@ def run(chk):
                        % chk.cov["exhaustive_small_scope"]["loop_script_depth"])
     chk.cov["exhaustive"] = False
     chk.assumptions += S.ASSUMPTIONS
-    return chk.finish()
+    return S.finish(chk)
